@@ -567,8 +567,9 @@ def _run(ctx):
                     Yv = real.Y(lmax, vec)
                     cond = float(torch.linalg.cond(Yv @ Yv.T))
                     bucket = "cond<1e3" if cond < 1e3 else "cond<1e6" if cond < 1e6 else "cond<1e10" if cond < 1e10 else "cond>=1e10"
-                    cond_hist[bucket] = cond_hist.get(bucket, 0) + 1
                     ctx.case(("with_peaks_at", lmax, pa, N, rep))
+                    if N <= dim:
+                        cond_hist[bucket] = cond_hist.get(bucket, 0) + 1
                     if N > dim:
                         ctx.count(f"with_peaks_at:more-directions-than-coefficients:{stt}")
                         continue
